@@ -174,3 +174,158 @@ def crash_sweep(earlier, rows, cols):
     finally:
         shutil.rmtree(base, ignore_errors=True)
     return bad
+
+
+# ---- API-independent kill points -------------------------------------------------------------------------------------------
+# The wrappers above intercept Path.open / open / os.replace / os.rename.  A save routine may reach the file system through
+# other doors (os.open + os.fdopen, tempfile, shutil.move, io.open ...).  The profile hook below counts EVERY C-level call
+# whose name is a file-system verb, before and after it runs, whatever object it is called on.
+
+_FS_VERBS = {"write", "writelines", "close", "replace", "rename", "open", "fdopen", "truncate", "unlink", "remove", "flush",
+             "fsync", "fdatasync", "link", "symlink", "mkstemp", "move", "copyfile", "sendfile", "ftruncate"}
+
+
+def _flush_everything():
+    import gc
+    import io
+    for o in gc.get_objects():
+        try:
+            if type(o).__module__ in ("_io", "io") and hasattr(o, "flush") and not o.closed and o.writable() and o.fileno() > 2:
+                o.flush()
+        except Exception:
+            pass
+
+
+def _save_with_profile_kill(dirpath, rows, cols, crash_at, flush, count_file=None, name="new", idx=99):
+    """In the CHILD: run the real save_json under sys.setprofile; die at file-system event number crash_at."""
+    import sys
+    from pyvc.mode import native_pkg
+    save = native_pkg().mod("run.save")
+    path = pathlib.Path(dirpath) / "data.json"
+    state = {"n": 0}
+
+    def prof(frame, event, arg):
+        if event in ("c_call", "c_return") and getattr(arg, "__name__", "") in _FS_VERBS:
+            if crash_at is not None and state["n"] == crash_at:
+                sys.setprofile(None)
+                if flush == "interrupt":
+                    state["n"] += 1
+                    raise KeyboardInterrupt()
+                if flush:
+                    _flush_everything()
+                os._exit(17)
+            state["n"] += 1
+    out = _output(save, idx, rows, cols)
+    sys.setprofile(prof)
+    try:
+        save.save_json(path, name, out)
+    finally:
+        sys.setprofile(None)
+    if count_file:
+        with open(count_file, "w") as f:
+            f.write(str(state["n"]))
+
+
+def _pick(points, limit=90):
+    if points <= limit:
+        return list(range(points))
+    head = list(range(20))
+    tail = list(range(points - 20, points))
+    step = max(1, (points - 40) // (limit - 40))
+    return sorted(set(head + tail + list(range(20, points - 20, step))))
+
+
+def profile_sweep(earlier, rows, cols):
+    """Like crash_sweep, with the API-independent kill points (sampled when there are many)."""
+    bad = []
+    from pyvc.mode import native_pkg
+    native_pkg().mod("run.save")
+    base = tempfile.mkdtemp(prefix="c20p_")
+    try:
+        pre = os.path.join(base, "pre")
+        os.makedirs(pre)
+        _prepare(pre, earlier, rows, cols)
+        old_bytes = open(os.path.join(pre, "data.json"), "rb").read() if earlier else None
+        ref = os.path.join(base, "ref")
+        shutil.copytree(pre, ref)
+        cf = os.path.join(base, "count")
+        rc = _child(lambda: _save_with_profile_kill(ref, rows, cols, None, False, cf))
+        if rc != 0:
+            return [{"what": "the uninterrupted save failed in the child", "rc": rc}]
+        points = int(open(cf).read())
+        new_bytes = open(os.path.join(ref, "data.json"), "rb").read()
+        for k in _pick(points):
+            for flush in (False, True):
+                d = os.path.join(base, f"k{k}{'f' if flush else ''}")
+                shutil.copytree(pre, d)
+                rc = _child(lambda: _save_with_profile_kill(d, rows, cols, k, flush))
+                f = os.path.join(d, "data.json")
+                now = open(f, "rb").read() if os.path.exists(f) else None
+                if now != old_bytes and now != new_bytes:
+                    bad.append({"kill_event": k, "of": points, "flushed_before_kill": flush, "child_exit": rc,
+                                "file": "missing" if now is None else f"{len(now)} bytes",
+                                "old": None if old_bytes is None else len(old_bytes), "new": len(new_bytes)})
+                shutil.rmtree(d, ignore_errors=True)
+                if len(bad) >= 3:
+                    return bad
+    finally:
+        shutil.rmtree(base, ignore_errors=True)
+    return bad
+
+
+def crash_then_save(earlier, rows, cols, big=(40, 30)):
+    """History 'a save of a LARGE result is killed, then a small result is saved without interruption': whatever the
+    crashed save left in the directory (temporary files of any name, longer than the next document), the next save must
+    produce exactly the document it would have produced in a clean directory, and every earlier run must survive."""
+    bad = []
+    from pyvc.mode import native_pkg
+    native_pkg().mod("run.save")
+    base = tempfile.mkdtemp(prefix="c20h_")
+    try:
+        pre = os.path.join(base, "pre")
+        os.makedirs(pre)
+        _prepare(pre, earlier, rows, cols)
+        old_bytes = open(os.path.join(pre, "data.json"), "rb").read() if earlier else None
+        # reference documents: old + small, and old + big + small (if the kill came after the big save completed)
+        ref_small = os.path.join(base, "ref_small")
+        shutil.copytree(pre, ref_small)
+        cf = os.path.join(base, "count")
+        if _child(lambda: _save_with_profile_kill(ref_small, rows, cols, None, False)) != 0:
+            return [{"what": "the uninterrupted save failed in the child"}]
+        want_small = open(os.path.join(ref_small, "data.json"), "rb").read()
+        ref_big = os.path.join(base, "ref_big")
+        shutil.copytree(pre, ref_big)
+        if _child(lambda: _save_with_profile_kill(ref_big, big[0], big[1], None, False, cf, name="big", idx=7)) != 0:
+            return [{"what": "the uninterrupted large save failed in the child"}]
+        points = int(open(cf).read())
+        big_bytes = open(os.path.join(ref_big, "data.json"), "rb").read()
+        if _child(lambda: _save_with_profile_kill(ref_big, rows, cols, None, False)) != 0:
+            return [{"what": "the save after the large save failed in the child"}]
+        want_big_small = open(os.path.join(ref_big, "data.json"), "rb").read()
+        # kill the large save late (most bytes on disk), flushed and unflushed, at a few events near the end and in the middle
+        ks = sorted(set([points // 2, (3 * points) // 4] + list(range(max(0, points - 12), points))))
+        for k in ks:
+            for flush in (True, False):
+                d = os.path.join(base, f"h{k}{'f' if flush else ''}")
+                shutil.copytree(pre, d)
+                _child(lambda: _save_with_profile_kill(d, big[0], big[1], k, flush, name="big", idx=7))
+                f = os.path.join(d, "data.json")
+                mid = open(f, "rb").read() if os.path.exists(f) else None
+                if mid != old_bytes and mid != big_bytes:
+                    bad.append({"what": "after the killed large save data.json is neither old nor new", "kill_event": k})
+                    continue
+                left = sorted(x for x in os.listdir(d) if x != "data.json")
+                rc = _child(lambda: _save_with_profile_kill(d, rows, cols, None, False))
+                now = open(f, "rb").read() if os.path.exists(f) else None
+                want = want_small if mid == old_bytes else want_big_small
+                if rc != 0 or now != want:
+                    bad.append({"what": "a save that follows a killed save does not produce the document it produces in a clean directory",
+                                "kill_event_of_the_large_save": k, "of": points, "flushed_before_kill": flush,
+                                "left_behind_by_the_killed_save": left, "child_exit": rc,
+                                "file": "missing" if now is None else f"{len(now)} bytes", "expected": f"{len(want)} bytes"})
+                shutil.rmtree(d, ignore_errors=True)
+                if len(bad) >= 3:
+                    return bad
+    finally:
+        shutil.rmtree(base, ignore_errors=True)
+    return bad
